@@ -117,6 +117,8 @@ def run(facts, chk, tier, only=None):
     from . import subs
     # the run must not abort / wrap on an unsigned subtraction of path or sequence lengths (necessary for any output at all)
     chk.guard('C18.sub', 'C18.sub:run', lambda: subs.check(facts, chk, 'C18.sub'))
+    from . import lo_e2e
+    chk.guard('C18.e2e', 'C18.e2e:run', lambda: lo_e2e.check_indels(facts, chk, 'C18.e2e', tier))
     chk.guard('C18.leaf', 'C18.leaf:run', lambda: check_graph_leaves(facts, chk, 'C18.leaf'))
     p = facts.fn(PI + 'process_indels')
 
